@@ -325,6 +325,8 @@ def catalog():
     out["waiting/low-high-middle"] = {"prog": prog(wide, [(once, sp(0.5)), (once, sp(2.0)), (once, sp(1.25))])}
     out["waiting/high-low-middle-lower"] = {"prog": prog(wide, [(once, sp(2.0)), (once, sp(1.0)), (once, sp(1.5)), (once, sp(0.75))])}
     out["waiting/descending"] = {"prog": prog(wide, [(once, sp(2.0)), (once, sp(1.5)), (once, sp(1.0)), (once, sp(0.5))])}
+    # one small program once more with EVERY bytecode instruction of retry.py as a scheduling point
+    out["instr/zero-delay-two-sync"] = dict(out["zero-delay-two/sync"], instr_points=["retry.py"])
     return out
 
 
@@ -343,8 +345,10 @@ def run_shard(spec, ctx):
         import progs
         cat = catalog()
         for name in spec["entries"]:
-            progs.sweep(ctx, cat[name]["prog"], name, evaluate, account, double=spec.get("double"),
-                        extra={"entry": name, "scarce": name.endswith("pool1")})
+            extra = {"entry": name, "scarce": name.endswith("pool1")}
+            if cat[name].get("instr_points"):
+                extra["instr_points"] = cat[name]["instr_points"]
+            progs.sweep(ctx, cat[name]["prog"], name, evaluate, account, double=spec.get("double") and not cat[name].get("instr_points"), extra=extra)
     else:
         import progs
         progs.random_search(ctx, spec, case_strategy(), evaluate, account)
